@@ -43,7 +43,7 @@ class CompilationError(ProgrammingError):
 class Compiler:
     def __init__(self, context):
         self.context = context
-        self.table = context.tables.get('postings')
+        self.table = context.tables.get('postings', context.tables.get(''))
 
     def compile(self, query, parameters=None):
         """Compile an AST into an executable statement."""
@@ -168,7 +168,10 @@ class Compiler:
                 raise CompilationError('CLOSE date must follow OPEN date')
 
             # Apply OPEN, CLOSE, and CLEAR clauses.
-            self.table = self.table.update(open=node.open, close=node.close, clear=node.clear)
+            if hasattr(self.table, 'update'):
+                self.table = self.table.update(open=node.open, close=node.close, clear=node.clear)
+            elif node.open or node.close or node.clear:
+                raise CompilationError('OPEN, CLOSE, and CLEAR are not supported for this table', node)
 
             return c_expression
 
